@@ -1097,6 +1097,24 @@ entry {
 script script0 { ins_1(); }
 ''')
 
+# (p) float arguments that are NaNs with payloads, and infinities, given as raw blobs
+add('feature/anm12-nan-payloads', 'ANM_12', main_body='''
+    ins_7(@blob="0100807f 0000c0ff");
+    ins_7(@blob="0000807f 000080ff");
+''')
+# (q) a TH06 timeline instruction that looks like the end-of-timeline marker (time -1, arg0 4) but is not the last
+add('feature/ecl06-timeline-instr-like-end-marker', 'ECL_06', full='''
+#pragma mapfile "map/any.eclm"
+script timeline0 {
+    ins_10(0, 1);
+-1:
+    ins_10(@arg0=4, 2, 3);
+0:
+    ins_10(0, 5);
+}
+void sub0() {}
+''')
+
 # --- seeded generated programs (tools/gen_programs.py): ids gen/<profile>-<k>, tag 'gen'
 import gen_programs
 for g in gen_programs.generate():
